@@ -276,7 +276,13 @@ func genTopCmpCase(rt *rapid.T) MetricCase {
 		for _, sr := range pr.Buckets {
 			for _, sm := range sr.Samples {
 				if sm.Value > 0 && sm.Value < 1e9 {
-					vals = append(vals, strconv.FormatFloat(math.Round(sm.Value*1000)/1000, 'f', -1, 64))
+					if sm.Value == math.Trunc(sm.Value) {
+						vals = append(vals, strconv.FormatFloat(sm.Value, 'f', -1, 64))
+					} else {
+						// just beside the value, never on it: non-integer values are compared
+						// with a tolerance, a threshold within 1e-9 of one is don't-care
+						vals = append(vals, strconv.FormatFloat(math.Round(sm.Value*1000)/1000+0.0004, 'f', 4, 64))
+					}
 				}
 			}
 		}
@@ -568,7 +574,7 @@ func reference(c *MetricCase, o *evid.Obs) (res refeval.MetricResultSQL, discard
 // on the threshold: sums of quotients depend on the order of summation in the last bit) is
 // not decidable. Integer-valued pipelines (counts, bytes, sums of integers) are exact in
 // both evaluators and stay decidable.
-func thresholdSensitive(c *MetricCase, base *refeval.MetricResultSQL) bool {
+func thresholdSensitive(c *MetricCase, _ *refeval.MetricResultSQL) bool {
 	e := &c.Q
 	if e.RangeCmp == nil && e.AggCmp == nil && e.TopCmp == nil {
 		return false
@@ -599,25 +605,35 @@ func thresholdSensitive(c *MetricCase, base *refeval.MetricResultSQL) bool {
 	if integral {
 		return false
 	}
-	for _, f := range []float64{1 + 1e-9, 1 - 1e-9} {
-		alt := *e
-		mv := func(cm *refeval.Comparison) *refeval.Comparison {
-			if cm == nil {
-				return nil
-			}
-			v, err := strconv.ParseFloat(cm.Val, 64)
-			if err != nil {
-				return cm
-			}
-			return &refeval.Comparison{Op: cm.Op, Val: strconv.FormatFloat(v*f, 'g', -1, 64)}
+	near := func(q refeval.Expr, cm *refeval.Comparison) bool {
+		if cm == nil {
+			return false
 		}
-		alt.RangeCmp, alt.AggCmp, alt.TopCmp = mv(e.RangeCmp), mv(e.AggCmp), mv(e.TopCmp)
-		r, err := refeval.EvalMetricSQL(&alt, c.DB.Ref(), c.params())
-		if err != nil || fmt.Sprint(r.Series) != fmt.Sprint(base.Series) {
+		thr, err := strconv.ParseFloat(cm.Val, 64)
+		if err != nil {
 			return true
 		}
+		r, err := refeval.EvalMetricSQL(&q, c.DB.Ref(), c.params())
+		if err != nil {
+			return true
+		}
+		for _, sr := range r.Buckets {
+			for _, sm := range sr.Samples {
+				if math.Abs(sm.Value-thr) <= 1e-9*math.Max(math.Abs(sm.Value), math.Abs(thr)) {
+					return true
+				}
+			}
+		}
+		return false
 	}
-	return false
+	// the values each comparison looks at: range level, aggregation level, pre-ranking level
+	l1 := *e
+	l1.RangeCmp, l1.AggFn, l1.AggGroup, l1.AggCmp, l1.TopFn, l1.TopCmp = nil, "", nil, nil, "", nil
+	l2 := *e
+	l2.AggCmp, l2.TopFn, l2.TopCmp = nil, "", nil
+	l3 := *e
+	l3.TopFn, l3.TopCmp = "", nil
+	return near(l1, e.RangeCmp) || (e.AggFn != "" && near(l2, e.AggCmp)) || near(l3, e.TopCmp)
 }
 
 func predMetric(c MetricCase, o *evid.Obs) error {
